@@ -6,7 +6,17 @@ CONSTANT ObsFile
 Obs == ndJsonDeserialize(ObsFile)
 P(r) == [src |-> r.src, tgt |-> r.tgt, map |-> r.map, unknown |-> r.unknown, rootErr |-> r.rootErr, pos |-> r.pos, enumOn |-> r.enumOn]
 Cause(p) == IF ~p.enumOn THEN "enum-off" ELSE LET g == Gen(p) IN IF g.fail = "" THEN "model-accepts" ELSE g.fail
-Finger(r) ==
+\* C18: fmt is imported exactly when an @error / @panic action is emitted
+Rng(q) == {q[i] : i \in DOMAIN q}
+UsesFmt(p) == p.enumOn /\ (p.unknown \in {"@error", "@panic"} \/ (p.map # <<>> /\ Has(p.src, p.map[1]) /\ p.map[2] \in {"@error", "@panic"}))
+\* (with enum off the source enum of a *field* is only read, never named: its package is not an owner of a used type)
+ExpImports(p) == {"tgt-enum"} \cup (IF p.pos # "field" \/ p.enumOn THEN {"src-enum"} ELSE {}) \cup (IF p.pos = "field" THEN {"user"} ELSE {}) \cup (IF UsesFmt(p) THEN {"fmt"} ELSE {})
+Finger18(r) ==
+  LET p == P(r) IN
+  IF r.exec \/ r.gen # "ok" THEN {}
+  ELSE (IF Rng(r.imports) # ExpImports(p) THEN {<<"C18", "imports-differ-from-needed", IF UsesFmt(p) THEN "fmt-needed" ELSE "fmt-not-needed", r.id>>} ELSE {})
+       \cup (IF \E i \in DOMAIN r.decls : r.decls[i] \notin {"struct", "method"} THEN {<<"C18", "extra-top-level-declaration", "", r.id>>} ELSE {})
+Finger1(r) ==
   LET p == P(r) IN
   IF ~r.exec THEN
      (IF r.gen = "panic" THEN {<<"C13", "generator-panic", r.why, r.id>>}
@@ -19,7 +29,7 @@ Finger(r) ==
 VARIABLES l, bad
 Init == l = 1 /\ bad = {}
 Next == /\ l <= Len(Obs)
-        /\ LET f == Finger(Obs[l]) IN bad' = bad \cup {<<x[1], x[2], x[3]>> : x \in f} /\ EmitFP(f)
+        /\ LET f == Finger1(Obs[l]) \cup Finger18(Obs[l]) IN bad' = bad \cup {<<x[1], x[2], x[3]>> : x \in f} /\ EmitFP(f)
         /\ l' = l + 1
 Done == l = Len(Obs) + 1
 Report == Done => EmitSummary(Len(Obs))
